@@ -124,6 +124,8 @@ Fixpoint find_suite (tbl : list suite) (id : N) : option suite :=
   end.
 
 Definition mem (x : N) (l : list N) : bool := existsb (N.eqb x) l.
+(* chain verification is a predicate on the certificate: membership in the list of certificates Verify accepts *)
+Definition tmem (t : term) (l : list term) : bool := existsb (term_eqb t) l.
 
 (* mutualCipherSuite / mutualCipherSuiteGM *)
 Definition mutualCipherSuite (tbl : list suite) (have : list N) (want : N) : option suite :=
@@ -244,7 +246,7 @@ Record cconfig := mkCC {
   c_maxv : N;                      (* Config.maxVersion(): MaxVersion, or 0x0303 when unset; one of 0x0301..0x0303 *)
   c_suites : list N;               (* hello.cipherSuites as built by makeClientHello(GM) *)
   c_verify : bool;                 (* !InsecureSkipVerify *)
-  c_trusted : list N;              (* ids of the certificates for which Verify(RootCAs, Time, ServerName) returns a chain *)
+  c_trusted : list term;           (* the certificates for which Verify(RootCAs, Time, ServerName) returns a chain *)
   c_cert : option (term * N);      (* client certificate and its private key *)
   c_cache : bool;                  (* ClientSessionCache set and tickets not disabled *)
   c_session : option (term * N * term);  (* cached session: ticket, suite, master secret *)
@@ -431,8 +433,8 @@ Definition client_handshake_step (cfg : cconfig) (st : cstate) (m : hmsg) : csta
       if c_gm cfg then
         if Nat.ltb (length certs) 2 then (st, SError)
         else if negb (gm_cert_checks 0 certs) then (st, SError)
-        else if c_verify cfg && negb (mem (cert_id (nth_cert 0 certs)) (c_trusted cfg)
-                                      && mem (cert_id (nth_cert 1 certs)) (c_trusted cfg)) then (st, SError)
+        else if c_verify cfg && negb (tmem (nth_cert 0 certs) (c_trusted cfg)
+                                      && tmem (nth_cert 1 certs) (c_trusted cfg)) then (st, SError)
         else
           (mkCS CP_AfterCert (cs_warn st) (cs_vers st) (cs_fp st) (cs_sh st) (cs_kx st) certs None false false
                 (cs_master st) (cs_tr st ++ [enc_hmsg m]) (cs_out st), SContinue)
@@ -441,7 +443,7 @@ Definition client_handshake_step (cfg : cconfig) (st : cstate) (m : hmsg) : csta
         | [] => (st, SError)
         | c0 :: _ =>
           if negb (forallb is_cert certs) then (st, SError)
-          else if c_verify cfg && negb (mem (cert_id c0) (c_trusted cfg)) then (st, SError)
+          else if c_verify cfg && negb (tmem c0 (c_trusted cfg)) then (st, SError)
           else if negb ((cert_kind c0 =? KIND_RSA) || (cert_kind c0 =? KIND_ECDSA) || (cert_kind c0 =? KIND_SM2))
                then (st, SError)
           else
@@ -525,7 +527,7 @@ Record sconfig := mkSC {
   s_prefer_server : bool;
   s_auth : N;                      (* ClientAuth: 0 NoClientCert, 1 RequestClientCert, 2 RequireAnyClientCert,
                                       3 VerifyClientCertIfGiven, 4 RequireAndVerifyClientCert *)
-  s_client_trusted : list N;       (* ids of client certificates for which Verify(ClientCAs, Time, EKU clientAuth) returns a chain *)
+  s_client_trusted : list term;    (* the client certificates for which Verify(ClientCAs, Time, EKU clientAuth) returns a chain *)
   s_gm_certs : list (term * N);    (* GM certificates with their keys: signing, encryption (Config.Certificates, or what
                                       GetCertificate / GetKECertificate return); fewer than two: internal error *)
   s_tls_cert : option (term * N);  (* the standard certificate *)
@@ -625,7 +627,7 @@ Definition processCertsFromClient (cfg : sconfig) (certs : list term) : option (
     match certs with
     | [] => Some []
     | c0 :: _ =>
-        if (3 <=? s_auth cfg) && negb (mem (cert_id c0) (s_client_trusted cfg)) then None
+        if (3 <=? s_auth cfg) && negb (tmem c0 (s_client_trusted cfg)) then None
         else if (cert_kind c0 =? KIND_RSA) || (cert_kind c0 =? KIND_ECDSA) || (cert_kind c0 =? KIND_SM2) then Some certs
         else None
     end.
